@@ -1754,17 +1754,48 @@ impl Transaction {
                 if next_row_id.is_some() {
                     let new_version = current_manifest.map(|m| m.version + 1).unwrap_or(1);
 
-                    // Build a map of original fragment ID -> original fragment for lookup
-                    let original_frags_map: std::collections::HashMap<u64, &Fragment> =
-                        existing_fragments.iter().map(|f| (f.id, f)).collect();
+                    // Build a map of stable row ID -> created_at version from the fragments the
+                    // rewritten rows came from.  Stable row IDs are not row addresses, so the
+                    // original position of a row has to be found through the row ID sequences.
+                    let mut original_created_at: std::collections::HashMap<u64, u64> =
+                        std::collections::HashMap::new();
+                    for orig_frag in existing_fragments.iter().filter(|f| {
+                        removed_fragment_ids.contains(&f.id)
+                            || updated_fragments.iter().any(|uf| uf.id == f.id)
+                    }) {
+                        let orig_row_ids = match &orig_frag.row_id_meta {
+                            Some(lance_table::format::RowIdMeta::Inline(data)) => {
+                                lance_table::rowids::read_row_ids(data).ok()
+                            }
+                            _ => None,
+                        };
+                        let Some(orig_row_ids) = orig_row_ids else {
+                            continue;
+                        };
+                        let created_versions: Option<Vec<u64>> = orig_frag
+                            .created_at_version_meta
+                            .as_ref()
+                            .and_then(|meta| meta.load_sequence().ok())
+                            .map(|seq| seq.versions().collect());
+                        for (offset, row_id) in orig_row_ids.iter().enumerate() {
+                            // No metadata on the original fragment: default to version 1
+                            let created_version = created_versions
+                                .as_ref()
+                                .map(|versions| versions.get(offset).copied().unwrap_or(1))
+                                .unwrap_or(1);
+                            original_created_at.insert(row_id, created_version);
+                        }
+                    }
 
                     for fragment in new_fragments.iter_mut() {
                         // For update operations with RewriteRows mode:
                         // - Rows are deleted from old fragments and rewritten to new fragments
                         // - last_updated_at should be the current version (when update happened)
                         // - created_at should be preserved from the original fragment
+                        // Rows that did not exist before (inserted by merge_insert) are created
+                        // in the new version.
 
-                        // Read row IDs from this fragment to find original fragments
+                        // Read row IDs from this fragment to find the original rows
                         let row_ids = if let Some(row_id_meta) = &fragment.row_id_meta {
                             match row_id_meta {
                                 lance_table::format::RowIdMeta::Inline(data) => {
@@ -1777,40 +1808,16 @@ impl Transaction {
                         };
 
                         if let Some(row_ids) = row_ids {
-                            // Extract created_at version for each row from original fragments
                             let physical_rows = fragment.physical_rows.unwrap_or(0);
                             let mut created_at_versions = Vec::with_capacity(physical_rows);
 
                             for row_id in row_ids.iter() {
-                                // Row ID format: upper 32 bits = fragment ID, lower 32 bits = row offset
-                                let orig_frag_id = row_id >> 32;
-                                let row_offset = (row_id & 0xFFFFFFFF) as usize;
-
-                                // Look up the original fragment
-                                if let Some(orig_frag) = original_frags_map.get(&orig_frag_id) {
-                                    // Get created_at version from original fragment's metadata
-                                    let created_version = if let Some(created_meta) =
-                                        &orig_frag.created_at_version_meta
-                                    {
-                                        // Load and index into the version sequence
-                                        match created_meta.load_sequence() {
-                                            Ok(seq) => {
-                                                let versions: Vec<u64> = seq.versions().collect();
-                                                versions.get(row_offset).copied().unwrap_or(1)
-                                            }
-                                            Err(_e) => {
-                                                1 // Default to version 1 on error
-                                            }
-                                        }
-                                    } else {
-                                        // No metadata on original fragment, default to version 1
-                                        1
-                                    };
-                                    created_at_versions.push(created_version);
-                                } else {
-                                    // Original fragment not found, default to version 1
-                                    created_at_versions.push(1);
-                                }
+                                created_at_versions.push(
+                                    original_created_at
+                                        .get(&row_id)
+                                        .copied()
+                                        .unwrap_or(new_version),
+                                );
                             }
 
                             // Build version metadata from the collected versions
